@@ -364,9 +364,11 @@ def check_covariate(kind: int, n_dim: int, n_cov: int, selmask: int,
 def check_filter_posterior(k1: int, k2: int, n_samples: int, n_out: int,
                            n_times: int, sigma_fixed: int) -> bool:
     import pints
-    models = [_make(k1, 1, n_samples), _make(k2, 1, n_samples)]
+    # (the second sub-model is two-dimensional for half of the time-point
+    # settings: multi-dimensional pooled / heterogeneous sub-models included)
+    models = [_make(k1, 1, n_samples), _make(k2, 1 + n_times % 2, n_samples)]
     pop = chi.ComposedPopulationModel(models)
-    mech = Toy(2, n_out)
+    mech = Toy(2 + n_times % 2, n_out)
     meas = np.arange(2 * n_out * n_times, dtype=float).reshape(
         2, n_out, n_times) + 1.0
     filt = chi.GaussianFilter(meas)
